@@ -33,7 +33,13 @@ META = {
              "recovered and escaping panics, for every defer order. Record guards (treasure guards), business locks and hangs are NOT in the "
              "model; they are TESTED: every touched swamp must close (a leaked record guard blocks the close or the repeated request of mode f), "
              "StopHydra must return at the end of each case, every unary request carries a client deadline and must be back after it ended, a "
-             "granted business lock must be releasable with the returned ID, and a Lock on a held key must end with its caller's context."),
+             "granted business lock must be releasable with the returned ID, and a Lock on a held key must end with its caller's context. "
+             "The vigil clause is about the vigil the handler takes before its first engine call (flag v: every such BeginVigil is followed by "
+             "its deferred CeaseVigil). Vigils taken INSIDE the engine part are below the model's `body` step: Delete re-summons the swamp for "
+             "each remaining key when an earlier key emptied (and closed) the instance and wraps that one DeleteTreasure in a plain "
+             "BeginVigil/CeaseVigil pair (repo 0f74b58). The extractor lists such pairs as observations (evidence: fact_errors); a panic inside "
+             "that one call would leave the vigil (cf. witness plainCease_leaks). Not reproduced: the only panic injection point, summon.enter, "
+             "fires before that vigil is taken, so the injected-panic request on Delete ends with vig=0 as the model says."),
     "note": ("Trusted: Lean kernel (propext, Classical.choice, Quot.sound); extract/c26.go (statement shapes it accepts; anything else "
              "makes the handler unrecognised and the verdict undetermined); harness/c26.go (shape abstraction of a request, snapshot "
              "comparison). Assumed and only tested: the engine below the prefix does not panic; repeated message fields never hold nil "
